@@ -544,11 +544,26 @@ impl Scenario for C19 {
         let n = rng.range(2, 6) as usize;
         // same-type, same-seed instances are likely to collide in a shared cache: bias towards them
         let mut insts: Vec<Inst> = Vec::new();
+        // one run in ten consists of JitterRng instances only (each over its own private clock)
+        let jitter_heavy = rng.chance(1, 10);
         for _ in 0..n {
             if !insts.is_empty() && rng.chance(1, 3) {
                 let mut c = rng.pick(&insts).clone();
                 if c.kind != Kind::Jitter && rng.chance(1, 2) {
                     c.ops = gen_output_ops(rng, c.kind, 14);
+                }
+                // near-equal clocks: this instance's private timer runs a few ticks ahead of / behind the
+                // other one's (numeric proximity between the readings of unrelated timers)
+                if c.kind == Kind::Jitter && rng.chance(2, 3) {
+                    if let Some(cl) = c.clock.as_mut() {
+                        let d = rng.range(1, 64);
+                        let ahead = rng.chance(1, 2);
+                        let wobble = rng.chance(1, 3);
+                        for r in cl.readings.iter_mut() {
+                            let e = d + if wobble { rng.below(3) } else { 0 };
+                            *r = if ahead { r.wrapping_add(e) } else { r.wrapping_sub(e) };
+                        }
+                    }
                 }
                 // near-equal seeds (a cache keyed on part of the seed would confuse them)
                 if rng.chance(1, 2) {
@@ -574,7 +589,13 @@ impl Scenario for C19 {
                 }
                 insts.push(c);
             } else {
-                insts.push(gen_inst(rng));
+                let mut i = gen_inst(rng);
+                if jitter_heavy {
+                    while i.kind != Kind::Jitter {
+                        i = gen_inst(rng);
+                    }
+                }
+                insts.push(i);
             }
         }
         spec.threads = rng.range(1, 4) as u8;
